@@ -176,7 +176,8 @@ struct Mon {
 		if (T.mirror.size() < C) { T.mirror.push_back(t); T.task_added = true; expect_result = 1; g_stats.hit("plan_appends"); if (T.mirror.size() == C) g_stats.hit("plan_at_capacity"); }
 		else { expect_result = 0; mark_nontrivial("plan_appends_refused_at_capacity"); }
 	}
-	void mirror_clear_user() { T.mirror.clear(); memset(T.mustS, 0, 32); }
+	// plan().clear() also withdraws the reports made so far: the must-ledgers (subset side) are reset, the may-ledgers (superset side) stay
+	void mirror_clear_user() { T.mirror.clear(); memset(T.mustS, 0, 32); own_fail = false; }
 
 	void apply_action(const HookEv& e, Ctx& cx) {
 		const SutAction& a = e.action;
